@@ -1,5 +1,6 @@
 import RtVerif.Model.C01
 import RtVerif.Props.C05
+import RtVerif.Lemmas.C01Bridge
 /-
   C01 — property theorems for the dispatch model.
 
@@ -201,5 +202,34 @@ theorem method_case_insensitive (api : Api) (m m' p : Bytes) (h : toUpper m = to
 theorem path_only_through_clean (api : Api) (m p p' : Bytes) (h : GoPath.clean p = GoPath.clean p') :
     dispatch api m p = dispatch api m p' := by
   unfold dispatch; rw [h]
+
+
+/-! ## The bridge to the property's own words
+
+`ran_sound` speaks of the trie key `convert (fullPath …)`.  For *simple* templates — every segment
+static text or one whole-segment `{name}` — that key is instantiated by a path exactly when the
+template is instantiated segment by segment (`instantiates`, the Spec the driver applies), with the
+same parameter texts. -/
+
+/-- the template→key conversion of a simple template, segment by segment -/
+theorem convert_simple (segs : List SSeg) (hw : WFT segs) : convert (renderT segs) = keyOf segs :=
+  convert_renderT segs hw
+
+/-- **Bridge** (all simple templates, all rendered paths): trie matching = segment-wise instantiation. -/
+theorem key_matches_iff_template_instantiated (segs : List SSeg) (hw : WFT segs) (hne : segs ≠ [])
+    (ps : List Bytes) (hps : ∀ q ∈ ps, slash ∉ q) :
+    C05.matchKey false (convert (renderT segs) ++ [C05.cTerm]) (renderP ps) =
+      (instantiates (renderT segs) (renderP ps)).map (fun l => l.map (·.2)) :=
+  simple_template_bridge segs hw hne ps hps
+
+/-- non-vacuity: `/pets/{id}` against `/pets/42` -/
+example : WFT [.lit [112, 101, 116, 115], .ph [105, 100]] ∧
+    renderT [.lit [112, 101, 116, 115], .ph [105, 100]] = [47, 112, 101, 116, 115, 47, 123, 105, 100, 125] ∧
+    instantiates (renderT [.lit [112, 101, 116, 115], .ph [105, 100]]) (renderP [[112, 101, 116, 115], [52, 50]])
+      = some [([105, 100], [52, 50])] := by
+  refine ⟨?_, rfl, by decide⟩
+  intro s hs
+  simp only [List.mem_cons, List.not_mem_nil, or_false] at hs
+  rcases hs with rfl | rfl <;> decide
 
 end RtVerif.C01
